@@ -1191,13 +1191,18 @@ def static_obligations(repo) -> list[str]:
         broken.append("static: cls.py transform_dataclass not found")
     else:
         first = tdc.body[0] if tdc.body else None
+        # (since ea05768 inside a guard: a sequence subclass whose own __len__ / __getitem__ raises is a ParseError —
+        #  unchanged for well-behaved lists and tuples)
         want = ("if isinstance(data, (list, tuple)) and not transformer.options.no_explicit_cast:\n"
-                "    if data:\n"
-                "        if transformer.options.no_data_loss and len(data) > 1:\n"
-                "            raise TypeError\n"
-                "        data = data[0]\n"
-                "        if type(data) == cls:\n"
-                "            return data")
+                "    try:\n"
+                "        if data:\n"
+                "            if transformer.options.no_data_loss and len(data) > 1:\n"
+                "                raise TypeError\n"
+                "            data = data[0]\n"
+                "            if type(data) == cls:\n"
+                "                return data\n"
+                "    except Exception as e:\n"
+                "        raise exc.ParseError(type=cls, value=data, origin_exc=e) from e")
         if first is None or _norm(first) != _src(want):
             broken.append("static: cls.py transform_dataclass: the single-item sequence unwrapping differs from the modelled "
                           "`if sequence and not no_explicit_cast: if data: (no_data_loss and len > 1 → TypeError); data = data[0]`")
